@@ -43,7 +43,7 @@ def decoys(td):
         return ""
     self_ty = td.name + ("<" + ", ".join(p["name"] for p in td.params) + ">" if td.params else "")
     where = (" where " + ", ".join(td.where)) if td.where else ""
-    fns = "".join("    pub fn %s%s { panic!(\"DECOY: inherent `%s` of the derived type was called\") }\n" % (n, sig, n)
+    fns = "".join("    pub fn %s%s { ::core::panic!(\"DECOY: inherent `%s` of the derived type was called\") }\n" % (n, sig, n)
                   for n, sig in DECOY_FNS)
     from . import model as M
     hp = M.header_params(td)
